@@ -34,6 +34,14 @@ class C13(PropBase):
                 pool.append(v.sid(t, rng))
             for _ in range(4):
                 pool.append(make_search(rng, v, v.any_type(rng)))
+            for _ in range(3):
+                base = rng.choice(pool[:6]).split('/')
+                if len(base) > 1:
+                    base[rng.randrange(1, len(base))] = '>'
+                    pool.append('/'.join(base))
+            if v.alias:
+                pool.append('hamlet/a/char/x/model/v001/w/' + ','.join(rng.sample(list(v.alias), min(2, len(v.alias)))))
+                pool.append('hamlet/a/char/x/model/v001/w/' + rng.choice(list(v.alias)))
             pool.append(pool[0] + '\n'); pool.append('bla'); pool.append('')
             items = ls.universe(rng, v, size=8)
             first_cfg = rng.choice(cfgs + [''])
@@ -102,7 +110,7 @@ class C13(PropBase):
     def search_disagreements(self, ws, ctx, disagreements, cases, impl_out):
         """a history answer differs from the pure model: is it the history (this property) or the call itself?"""
         out = []
-        for d in disagreements[:5]:
+        for d in disagreements[:25]:
             c = d['case']
             fresh = core.run_impl(ws, [(c['op'], c['args'])])[0]
             if fresh != d['impl']:
